@@ -118,6 +118,8 @@ ProbeInputs ==
   \cup {Subst(Base({}, {}), pre, NoneV) : pre \in InnerNodes}                          \* each inner node of the wrong kind
   \cup {Subst(Base({}, {}), pre, IF NodeIsList(PathSet(PsIn), pre) THEN Dict(<<>>, <<>>) ELSE List(<<>>)) : pre \in InnerNodes \cup {<<>>}}
   \cup {NoneV}
+  \* an odd subscriptable object in place of each dict node: obj['key'] raises IndexError / KeyError / TypeError of its own
+  \cup {Subst(Base({}, {}), pre, OddV) : pre \in DictNodes}
   \* a mapping keyed by the list positions in place of each list node (complete, and with the last position missing)
   \cup {Subst(Base({}, {}), pre, IntKeyed(pre, 0)) : pre \in ListNodes}
   \cup {Subst(Base({}, {}), pre, IntKeyed(pre, 1)) : pre \in ListNodes}
